@@ -312,6 +312,23 @@ class DegEval:
                 if name in ("map",):
                     return S("Option", {0: r})
                 return r
+        # bool::then(cond, || value) / then_some(cond, value): Some(value) or None, the condition carries no position
+        if name in ("then", "then_some") and path.startswith(("core::bool", "<impl bool>", "bool::")) and len(targs) == 2:
+            if name == "then_some":
+                return S("Option", {0: args[1]})
+            if targs[1][0] == "agg" and str(targs[1][1]).startswith("closure:"):
+                clo = self.prog.fns.get(targs[1][1][len("closure:"):])
+                if clo is not None:
+                    cenv = {}
+                    for i, c in enumerate([self.eval(c, env, fn, depth) for c in targs[1][2]]):
+                        cenv[("upvar", i)] = c
+                    self.stack.append(clo)
+                    try:
+                        r = self.eval(self.ret(clo), cenv, clo, depth + 1)
+                        self.conditions(clo, cenv, depth + 1)
+                    finally:
+                        self.stack.pop()
+                    return S("Option", {0: r})
         ds = [a for a in args if isinstance(a, D)]
         if name in ("min", "max", "clamp") and len(ds) >= 2:
             if all(x.d == ds[0].d for x in ds) and ds[0].d != T:
